@@ -247,7 +247,8 @@ def _wrap_stage(name, fn):
                     ctx.event("M-stage", "exception", key)
                     if "C02" in ACTIVE:
                         if tr.domain_problem is None:
-                            ctx.violation("C02", "exception", key, mech=mech)
+                            ctx.violation("C02", f"exception:{key['type']}@{key['site']}", key,
+                                          mech=mech)
                         else:
                             ctx.hit("C02.out_of_domain_exception")
                     ctx.data.setdefault("stage_exceptions", []).append((key, mech))
